@@ -27,6 +27,7 @@ struct Obs {
   full: bool,
   tie_accepted: u64,
   inner_order_judged: bool,
+  inner_two_readings: bool,
   inner_nonempty: bool,
   expected_error: bool,
   skipped: Option<&'static str>,
@@ -131,33 +132,41 @@ fn check_req(reader: &IndexReader, docs: &[D], req: &Value, obs: &mut Obs) -> Re
     }
   };
 
-  // second base ranking under the inner sort (only when the inner order is judged)
-  // inner sort absent: README says inner hits are "sorted independently if you supply sort";
-  // what happens otherwise is only unambiguous when the request sort is by descending score.
-  let inner_judged = inner_cfg.is_some() && (!inner_sort.is_empty() || rk::is_score_desc(&main_sort));
-  obs.inner_order_judged = inner_judged;
-  let rinner: Option<Ranking> = if inner_judged {
-    if inner_sort.is_empty() || inner_sort == main_sort {
-      None
-    } else {
-      match vcore::ctx::catch(|| idx::search(reader, strip(req, Some(&inner_sort)))) {
-        Ok(Ok(r)) => Some(Ranking::from(&r)),
+  // Readings of the inner order that are judged. With an inner sort: that sort. Without one the
+  // README only says inner hits are "sorted independently if you supply sort": when the request
+  // sort is descending score every reading coincides; when the request sort merely CONTAINS
+  // `_score` two readings exist (follow the request sort / default sort = descending score) and
+  // either is accepted; when it has no `_score` key nothing is judged about the order.
+  let score_desc: Vec<Value> = vec![json!({"field":"_score","order":"desc"})];
+  let mut readings: Vec<(Vec<Value>, Option<Ranking>)> = Vec::new();
+  if inner_cfg.is_some() {
+    if !inner_sort.is_empty() {
+      readings.push((inner_sort.clone(), None));
+    } else if rk::is_score_desc(&main_sort) {
+      readings.push((main_sort.clone(), None));
+    } else if rk::uses_score(&main_sort) {
+      readings.push((main_sort.clone(), None));
+      readings.push((score_desc.clone(), None));
+    }
+  }
+  for (srt, rk_) in readings.iter_mut() {
+    if *srt != main_sort {
+      match vcore::ctx::catch(|| idx::search(reader, strip(req, Some(srt)))) {
+        Ok(Ok(r)) => *rk_ = Some(Ranking::from(&r)),
         Ok(Err(e)) => return Err(mk("base-search-error", format!("request without collapse under the inner sort fails: {e:#}"), json!(null))),
         Err(p) => return Err(mk(&format!("base-search-panic:{}", vcore::ctx::panic_site(&p)), p, json!(null))),
       }
+      if rk_.as_ref().unwrap().ids.len() != rmain.ids.len() {
+        return Err(mk("base-rankings-differ-in-size", "the same query matches a different number of documents under another sort".into(), json!(null)));
+      }
     }
-  } else {
-    None
-  };
-  let rin: &Ranking = rinner.as_ref().unwrap_or(&rmain);
-  let eff_inner_sort: &Vec<Value> = if inner_sort.is_empty() { &main_sort } else { &inner_sort };
-  if rin.ids.len() != rmain.ids.len() {
-    return Err(mk("base-rankings-differ-in-size", "the same query matches a different number of documents under another sort".into(), json!(null)));
   }
+  let inner_judged = !readings.is_empty();
+  obs.inner_order_judged = inner_judged;
+  obs.inner_two_readings = readings.len() > 1;
   let kmain = |id: &str| key_of(by_id[id], &main_sort, rmain.score.get(id).copied().unwrap_or(f32::NAN));
-  let kinner = |id: &str| key_of(by_id[id], eff_inner_sort, rin.score.get(id).copied().unwrap_or(f32::NAN));
   let ctx_json = |extra: Value| json!({"base_ranking": rmain.ids.iter().map(|i| json!([i, rmain.score[i], by_id[i.as_str()].grp])).collect::<Vec<_>>(),
-     "inner_base_ranking": rinner.as_ref().map(|r| r.ids.iter().map(|i| json!([i, r.score[i]])).collect::<Vec<_>>()),
+     "inner_base_ranking": readings.first().and_then(|r| r.1.as_ref()).map(|r| r.ids.iter().map(|i| json!([i, r.score[i]])).collect::<Vec<_>>()),
      "actual": res_json(&actual), "more": extra});
 
   // -------- hits: one per value, known documents, values present
@@ -290,31 +299,37 @@ fn check_req(reader: &IndexReader, docs: &[D], req: &Value, obs: &mut Obs) -> Re
         return Err(mk("inner-hits-exceed-size", format!("group {v}: {} inner hits for size {s}", inner.len()), ctx_json(json!(null))));
       }
     }
-    let mut rest: Vec<&String> = mem.iter().filter(|m| **m != h.doc_id).collect();
-    if inner_judged {
-      rest.sort_by_key(|m| rin.pos[*m]);
+    let rest0: Vec<&String> = mem.iter().filter(|m| **m != h.doc_id).collect();
+    let lo = from.min(rest0.len());
+    let hi = match size {
+      Some(s) => (lo + s).min(rest0.len()),
+      None => rest0.len(),
+    };
+    if obs.full && hi - lo != inner.len() {
+      return Err(mk("inner-hits-window-wrong-length", format!("group {v}: {} inner hits, expected {} (members {}, from {from}, size {:?})", inner.len(), hi - lo, mem.len(), size),
+        ctx_json(json!({"members": mem}))));
     }
-    if obs.full {
-      let lo = from.min(rest.len());
-      let hi = match size {
-        Some(s) => (lo + s).min(rest.len()),
-        None => rest.len(),
-      };
-      let exp: Vec<&String> = rest[lo..hi].to_vec();
-      if exp.len() != inner.len() {
-        return Err(mk("inner-hits-window-wrong-length", format!("group {v}: {} inner hits, expected {} (members {}, from {from}, size {:?})", inner.len(), exp.len(), mem.len(), size),
-          ctx_json(json!({"members": mem, "expected_inner": exp}))));
-      }
-      if inner_judged {
+    // order (and, with all matches as candidates, the exact window) under each judged reading
+    let mut first_err: Option<Fail> = None;
+    let mut ok = readings.is_empty();
+    for (eff_inner_sort, rk_) in readings.iter() {
+      let rin: &Ranking = rk_.as_ref().unwrap_or(&rmain);
+      let kinner = |id: &str| key_of(by_id[id], eff_inner_sort, rin.score.get(id).copied().unwrap_or(f32::NAN));
+      let mut ties = 0u64;
+      let mut err: Option<Fail> = None;
+      if obs.full {
+        let mut rest = rest0.clone();
+        rest.sort_by_key(|m| rin.pos[*m]);
+        let exp: Vec<&String> = rest[lo..hi].to_vec();
         for (j, ih) in inner.iter().enumerate() {
           if &ih.doc_id != exp[j] {
             if keys_close(&kinner(&ih.doc_id), &kinner(exp[j])) {
-              obs.tie_accepted += 1;
+              ties += 1;
             } else {
               let same_set = inner.iter().map(|x| x.doc_id.as_str()).collect::<HashSet<_>>() == exp.iter().map(|x| x.as_str()).collect::<HashSet<_>>();
               // classifier: scores are not computed when the request sort has no `_score` key
-              // (all reported scores equal), so an inner `_score` key degenerates to a constant:
-              // the response equals the expectation computed with a constant score.
+              // (all reported scores equal although the real scores differ), so an inner `_score`
+              // key degenerates to a constant and the inner hits are sorted as if all scores tied.
               let score_only_inner = rk::uses_score(eff_inner_sort) && !rk::uses_score(&main_sort) && {
                 let const_key = |id: &str| key_of(by_id[id], eff_inner_sort, 0.0);
                 let sorted_with_constant_score = inner
@@ -330,24 +345,46 @@ fn check_req(reader: &IndexReader, docs: &[D], req: &Value, obs: &mut Obs) -> Re
                 (true, false) => "inner-hits-not-in-inner-sort-order",
                 (false, false) => "inner-hits-window-wrong-members",
               };
-              return Err(mk(sig, format!("group {v}: inner hit #{j} is {}, expected {}", ih.doc_id, exp[j]),
+              err = Some(mk(sig, format!("group {v}: inner hit #{j} is {}, expected {}", ih.doc_id, exp[j]),
                 ctx_json(json!({"members": mem, "expected_inner": exp, "inner_sort": eff_inner_sort}))));
+              break;
             }
           }
         }
-      }
-    } else if inner_judged {
-      for w in inner.windows(2) {
-        let (a, b) = (&w[0].doc_id, &w[1].doc_id);
-        if rin.pos[a] > rin.pos[b] && !keys_close(&kinner(a), &kinner(b)) {
-          let score_only_inner = rk::uses_score(eff_inner_sort)
-            && !rk::uses_score(&main_sort)
-            && actual.hits.iter().all(|x| x.score == actual.hits[0].score)
-            && inner.iter().all(|x| x.score == actual.hits[0].score);
-          let sig = if score_only_inner { "inner-sort-by-score-ignored-when-request-sort-has-no-score" } else { "truncated:inner-hits-not-in-inner-sort-order" };
-          return Err(mk(sig, format!("group {v}: inner hit {a} listed before {b}"), ctx_json(json!({"inner_sort": eff_inner_sort}))));
+      } else {
+        for w in inner.windows(2) {
+          let (a, b) = (&w[0].doc_id, &w[1].doc_id);
+          if rin.pos[a] > rin.pos[b] && !keys_close(&kinner(a), &kinner(b)) {
+            let score_only_inner = rk::uses_score(eff_inner_sort)
+              && !rk::uses_score(&main_sort)
+              && actual.hits.iter().all(|x| x.score == actual.hits[0].score)
+              && inner.iter().all(|x| x.score == actual.hits[0].score);
+            let sig = if score_only_inner { "inner-sort-by-score-ignored-when-request-sort-has-no-score" } else { "truncated:inner-hits-not-in-inner-sort-order" };
+            err = Some(mk(sig, format!("group {v}: inner hit {a} listed before {b}"), ctx_json(json!({"inner_sort": eff_inner_sort}))));
+            break;
+          }
         }
       }
+      match err {
+        None => {
+          obs.tie_accepted += ties;
+          ok = true;
+          break;
+        }
+        Some(e) => {
+          if first_err.is_none() {
+            first_err = Some(e);
+          }
+        }
+      }
+    }
+    if !ok {
+      let mut e = first_err.unwrap();
+      if readings.len() > 1 {
+        e.sig = format!("no-inner-sort:{}", e.sig);
+        e.what = format!("{} (neither the request sort nor descending score explains the inner order)", e.what);
+      }
+      return Err(e);
     }
   }
   Ok(())
@@ -486,7 +523,7 @@ fn main() {
   ctx.assumptions = vec![
     "the uncollapsed ranking of the same request (limit >= matches) is correct (judged by C10); ties between documents whose sort keys are equal (scores within 1e-5 relative) may be broken either way".into(),
     "documents without a value in the collapse field are not covered by the statement: hits for such documents are ignored, total_groups counts distinct values".into(),
-    "when inner_hits carries no sort and the request sort is not descending score, the README does not say how inner hits are ordered: only membership, from/size length and scores are judged there".into(),
+    "when inner_hits carries no sort the README does not say how inner hits are ordered: with a request sort of descending score all readings coincide (judged); with a request sort that contains `_score` the order must follow either the request sort or descending score; with a request sort without `_score` only membership, from/size length and scores are judged".into(),
     "with limit (and candidate_size) < matches the engine groups a truncated candidate list: only the weaker invariants are judged (one hit per value, representative = best member, groups in best-hit order, inner hits are other members in inner-sort order, size respected)".into(),
     "scores of hits/inner hits are compared with the uncollapsed request's scores at 1e-5 relative".into(),
   ];
@@ -524,6 +561,9 @@ fn main() {
       if o.inner_order_judged {
         l.count("requests_inner_order_judged", 1);
       }
+      if o.inner_two_readings {
+        l.count("requests_inner_order_judged_under_two_readings(no inner sort)", 1);
+      }
       if o.inner_nonempty {
         l.count("responses_with_inner_hits", 1);
       }
@@ -531,7 +571,7 @@ fn main() {
         l.count("positions_accepted_as_sort_key_ties", o.tie_accepted);
       }
       if req.get("collapse").and_then(|c| c.get("inner_hits")).is_some() && !o.inner_order_judged {
-        l.count("requests_inner_order_not_judged(no inner sort, non-score request sort)", 1);
+        l.count("requests_inner_order_not_judged(no inner sort, request sort without _score)", 1);
       }
       if l.samples.is_empty() && o.matches >= 3 && o.groups >= 2 && o.max_group >= 2 && r.is_ok() {
         if let Ok(a) = idx::search(&reader, req.clone()) {
